@@ -21,7 +21,8 @@ func init() {
 		},
 		Run: runC07,
 		Controls: []Control{
-			{Name: "manual-stop-droppable", File: "protocols/bgp/server/peer.go", Old: "\t\tfsm.eventCh <- ManualStop\n", New: "\t\tselect {\n\t\tcase fsm.eventCh <- ManualStop:\n\t\tdefault:\n\t\t}\n", Expect: "stop-event-delivered"},
+			{Name: "manual-stop-droppable", File: "protocols/bgp/server/peer.go", Old: "\t\tfsm.sendEvent(ManualStop)\n", New: "\t\tselect {\n\t\tcase fsm.eventCh <- ManualStop:\n\t\tdefault:\n\t\t}\n", Expect: "stop-event-delivered"},
+			{Name: "event-helper-gives-up-after-timeout", File: "protocols/bgp/server/fsm.go", Old: "\tcase fsm.eventCh <- e:\n\tcase <-fsm.doneCh:\n\t}\n", New: "\tcase fsm.eventCh <- e:\n\tcase <-fsm.doneCh:\n\tcase <-time.After(time.Second):\n\t}\n", Expect: "stop-event-delivered"},
 			{Name: "notification-exit-without-uninit", File: "protocols/bgp/server/fsm_established.go", Old: "\tstopTimer(s.fsm.connectRetryTimer)\n\ts.uninit()\n\ts.fsm.con.Close()\n\ts.fsm.connectRetryCounter++\n\treturn newIdleState(s.fsm), \"Received NOTIFICATION\"", New: "\tstopTimer(s.fsm.connectRetryTimer)\n\ts.fsm.con.Close()\n\ts.fsm.connectRetryCounter++\n\treturn newIdleState(s.fsm), \"Received NOTIFICATION\"", Expect: "exit-established-uninit"},
 			{Name: "dispose-keeps-adjribout-registered", File: "protocols/bgp/server/fsm_address_family.go", Old: "\tf.rib.Unregister(f.adjRIBOut)\n", New: "", Expect: "init-dispose-paired"},
 			{Name: "uninit-keeps-ribs-initialized", File: "protocols/bgp/server/fsm_established.go", Old: "\ts.fsm.stateMu.Lock()\n\ts.fsm.ribsInitialized = false\n\ts.fsm.stateMu.Unlock()\n", New: "", Expect: "exit-established-uninit"},
